@@ -16,6 +16,11 @@ SPEC = {
         # MessagesCreated batch: several messages with identical flags made by ONE operation) followed by an in-place
         # change of ONE member in ONE session (non-PEEK body fetch, STORE) while other sessions flush the EXISTS only
         # afterwards. Directed instances: corpus/C02/burst-*.hist, batch-*.hist.
+        # Error paths (harness/hfc_conn.go, hfc_hist.go): every fourth history runs against a connector whose NEXT call
+        # of a chosen kind fails on request (X FAILCONN / X FAILNEXT <kind> [n]); every command kind goes once through
+        # [other sessions' changes delivered, not flushed -> the session's own command, answered NO -> probes ->
+        # X CONVERGE]: after a failed command the view still converges to what a fresh session sees (the connector is
+        # called before anything is committed, so neither the view nor the index may have changed).
         {"name": "hist", "quick_args": ["-props", "C02", "-n", "40", "-steps", "40"],
          "thorough_args": ["-props", "C02", "-n", "400", "-steps", "70", "-profile", "hold,samebox"], "timeout": 3000},
         # the assumption "FIFO loss-free update queue" on the real async.QueuedChannel (the oracle of C19): recorded
